@@ -109,6 +109,10 @@ def plan(b, seed, per_valid, cap):
 def roundtrip_diffs(b, att, sent, got, side):
     """[(signature, what)] per attribute that did not arrive as sent"""
     out = []
+    if isinstance(sent, dict) and got is None:
+        got = {}
+    if isinstance(got, dict) and sent is None:
+        sent = {}
     if not isinstance(sent, dict) or not isinstance(got, dict):
         if sent != got:
             prim = b.schema.resolve(att).get("type", {}).get("prim")
@@ -126,6 +130,19 @@ def roundtrip_diffs(b, att, sent, got, side):
         else:
             out.append(("c10/%s-roundtrip/%s" % (side, prim or type(s).__name__), "attribute %s sent as %r arrived as %r" % (path, s, g)))
     return out
+
+
+def metadata_refused(m, p, o):
+    """the known finding: a metadata value outside printable ASCII makes the transport fail the call"""
+    g = o.get("grpc") or {}
+    if o.get("server_called") or "non-printable ASCII" not in (g.get("message") or ""):
+        return None
+    for mp in (m.get("grpc") or {}).get("metadata") or []:
+        v = p.get(mp["attr"]) if isinstance(p, dict) else None
+        if isinstance(v, str) and not re.match(r"^[\x20-\x7e]*$", v):
+            return ("c10/metadata/value-outside-printable-ascii", "%s: the string attribute %s = %r is mapped to metadata and sent as it is; grpc refuses metadata values "
+                    "outside printable ASCII, the payload never reaches the service" % (m["name"], mp["attr"], v))
+    return None
 
 
 def judge_valid(b, s, m, p, res, o):
@@ -210,7 +227,7 @@ def run_roundtrip(c, n, per_valid, cap):
                 first = next((l for l in b.error.splitlines() if re.search(r"\.go:\d+:\d+:", l)), b.error.splitlines()[-1] if b.error.splitlines() else "?")
                 mm = re.search(r"gen/grpc/\w+/(\w+/\w+\.go):\d+:\d+: (.*)", first)
                 sig = "c10/build:%s: %s" % (mm.group(1), re.sub(r"\b[A-Z]\w*\d+\b", "T", mm.group(2))[:80]) if mm else "c10/build:" + first[:80]
-                if mm and mm.group(1) == "server/encode_decode.go" and re.match(r"undefined: (p|res)$", mm.group(2)):
+                if re.search(r"server/encode_decode\.go:\d+:\d+: undefined: (p|res)\b", b.error):
                     sig = "c10/build:response-headers-or-trailers"
                 c.fail(sig, "gRPC design %d: the generated code does not compile: %s" % (b.index, first[:300]), input={"seed": c.seed, "index": b.index}, design=b.design, actual=b.error[-1500:])
             b.cleanup()
@@ -254,7 +271,11 @@ def run_roundtrip(c, n, per_valid, cap):
             c.evaluations += 1
             total += 1
             c.count("%d/%s/%s/%s" % (b.index, s["name"], m["name"], json.dumps(cmds[i], sort_keys=True)[:300]))
-            if side == "both":
+            md_refused = metadata_refused(m, cmds[i].get("payload"), o)
+            if md_refused:
+                c.hist("grpc-exchange", "metadata-refused")
+                fails = [md_refused]
+            elif side == "both":
                 c.hist("grpc-exchange", "valid")
                 fails = judge_valid(b, s, m, p, res, o)
             else:
